@@ -219,8 +219,13 @@ func c10Gen(r *Rng, tier string, i int) Sx {
 		mw, main := 20, 120
 		hs = append(hs, L(I(mw), L(ev(mw*10), L(A("next")))),
 			L(I(main), LS([]Sx{ev(main * 10), L(A("snap")), c10Mut[r.Intn(len(c10Mut))](r, main), L(A("sp"), S("id"), S("changed")), L(A("sp"), S("extra"), S("x"))})))
-		stmts = append(stmts, L(A("route"), SL([]string{"GET"}), S("/d/{id}"), I(main), L(I(mw)), L(), S("dyn")))
-		paths = append(paths, "/d/1", "/d/1", "/d/2")
+		if r.Chance(1, 3) { // a dynamic route without variables: its (empty) parameter map also goes through the cache
+			stmts = append(stmts, L(A("route"), SL([]string{"GET"}), S("/o[.html]"), I(main), L(I(mw)), L(), S("dyn")))
+			paths = append(paths, "/o", "/o", "/o.html")
+		} else {
+			stmts = append(stmts, L(A("route"), SL([]string{"GET"}), S("/d/{id}"), I(main), L(I(mw)), L(), S("dyn")))
+			paths = append(paths, "/d/1", "/d/1", "/d/2")
+		}
 		if r.Chance(2, 3) {
 			opts = append(opts, L(A("cache"), I(r.Intn(3))))
 		}
